@@ -138,14 +138,6 @@ impl Fs {
         self.n += 1;
         self.scratch.path().join(format!("w{}", self.n))
     }
-    /// Drop all directories created so far (between cases).
-    pub fn gc(&mut self) {
-        if let Ok(rd) = std::fs::read_dir(self.scratch.path()) {
-            for e in rd.flatten() {
-                let _ = std::fs::remove_dir_all(e.path());
-            }
-        }
-    }
 }
 
 pub fn seg1() -> WalSegmentId {
